@@ -1185,6 +1185,13 @@ pub fn specs(thorough: bool) -> Vec<Spec> {
       }
     }
     tv.push(vec![]);
+    // a list among several arguments is not "the list": the arguments are the items, and a list is not a number
+    for first in [l(vec![n(1), n(2)]), l(vec![]), l(vec![n(5)])] {
+      tv.push(vec![first.clone(), n(3)]);
+      tv.push(vec![n(3), first.clone()]);
+      tv.push(vec![first.clone(), l(vec![n(3), n(4)])]);
+      tv.push(vec![first.clone(), n(3), n(4)]);
+    }
     out.push(Spec { name, params: None, tuples: tv });
   }
   let bools = vec![Bool(true), Bool(false), Null, n(1)];
@@ -1205,6 +1212,11 @@ pub fn specs(thorough: bool) -> Vec<Spec> {
       for b in &bools {
         tv.push(vec![a.clone(), b.clone()]);
       }
+    }
+    for first in [l(vec![Bool(true), Bool(true)]), l(vec![]), l(vec![Bool(false)])] {
+      tv.push(vec![first.clone(), Bool(true)]);
+      tv.push(vec![Bool(true), first.clone()]);
+      tv.push(vec![first.clone(), l(vec![Bool(true)])]);
     }
     out.push(Spec { name, params: None, tuples: tv });
   }
